@@ -300,3 +300,69 @@ var _ = time.Now
 var _ = lo.T2[int, int]
 ` + body
 }
+
+// calleeBodies resolves what a call may run inside the repository: the declaration of a same-repository function or
+// method (m.Decls), or the function literal(s) bound to a local closure variable. Unknown callees yield nothing.
+func calleeBodies(m *model.Model, p *packages.Package, call *ast.CallExpr) []struct {
+	Pkg  *packages.Package
+	Body *ast.BlockStmt
+} {
+	type ref = struct {
+		Pkg  *packages.Package
+		Body *ast.BlockStmt
+	}
+	var out []ref
+	info := p.TypesInfo
+	if cl := model.Callee(info, call); cl != nil {
+		if d := m.Decls[cl]; d != nil && d.Decl != nil && d.Decl.Body != nil {
+			out = append(out, ref{d.Pkg, d.Decl.Body})
+		}
+		return out
+	}
+	if id, ok := ast.Unparen(call.Fun).(*ast.Ident); ok {
+		if o := objOf(info, id); o != nil {
+			for _, d := range m.Defs[o] {
+				if d.Expr == nil {
+					continue
+				}
+				if l, ok := ast.Unparen(d.Expr).(*ast.FuncLit); ok {
+					out = append(out, ref{p, l.Body})
+				}
+			}
+		}
+	}
+	if l, ok := ast.Unparen(call.Fun).(*ast.FuncLit); ok {
+		out = append(out, ref{p, l.Body})
+	}
+	return out
+}
+
+// findCallTransitive reports the position, inside root, of the first call through which a call satisfying pred is
+// reached — the call itself, or a call of a same-repository function / local closure whose body reaches one (helpers
+// extracted from a handler count as the handler). token.NoPos when there is none.
+func findCallTransitive(m *model.Model, p *packages.Package, root ast.Node, pred func(p *packages.Package, call *ast.CallExpr) bool, depth int) token.Pos {
+	found := token.NoPos
+	ast.Inspect(root, func(n ast.Node) bool {
+		if found != token.NoPos {
+			return false
+		}
+		call, ok := n.(*ast.CallExpr)
+		if !ok {
+			return true
+		}
+		if pred(p, call) {
+			found = call.Pos()
+			return false
+		}
+		if depth > 0 {
+			for _, b := range calleeBodies(m, p, call) {
+				if findCallTransitive(m, b.Pkg, b.Body, pred, depth-1) != token.NoPos {
+					found = call.Pos()
+					return false
+				}
+			}
+		}
+		return true
+	})
+	return found
+}
